@@ -222,6 +222,23 @@ Definition dict_field (fs : list (Typing.fkey * spec)) (k : key) : option spec :
 Definition is_const_key (fs : list (Typing.fkey * spec)) (k : key) : bool :=
   match k with KS s => Typing.has_const s fs | KI _ => false end.
 
+(* Dict.sym_keys: the declared keys in schema order, then the others in the order they were stored *)
+Definition ordered_items (ev : env) (n : node) : list (key * node) :=
+  match n with
+  | Node _ KList _ _ _ its => its
+  | Node _ _ _ _ fl its =>
+      match spec_at ev (f_spec fl) with
+      | Some (Typing.SDict (Some fs) _) =>
+          let consts := flat_map (fun kf => match fst kf with
+                                            | Typing.KConst k => match assoc (KS k) its with Some c => [(KS k, c)] | None => [] end
+                                            | Typing.KDyn => []
+                                            end) fs in
+          consts ++ filter (fun kc => negb (is_const_key fs (fst kc))) its
+      | _ => its
+      end
+  | Leaf _ => []
+  end.
+
 (* ---------------------------------------------------------------------------------------------------------- *)
 (** * From an applied value to nodes: which spec a created pg.Dict / pg.List is bound to *)
 
@@ -866,7 +883,7 @@ Definition exec_dict (sc : scope) (st : state) (ps : pos) (tid : N) (tk : kind) 
           match tlit ev (accepts_partial sc tfl) (Some sp) v' with
           | LitNode _ _ _ lits =>
               if negb (stored_ok (accepts_partial sc tfl) sp (LitNode KDict default_flags false lits) v') then (st, Err EOther) else
-              let st1 := detach_all (update_at st ps (set_items [])) its in
+              let st1 := detach_all (update_at st ps (set_items [])) (ordered_items ev (Node tid tk None tpth tfl its)) in
               let '(tmp, nx) := build false None tpth (LitNode tk (mkFlags false true (accepts_partial sc tfl) 0%N) false lits) (next_id st1) in
               let its' := map (fun kc => (fst kc, set_par (Some tid) (snd kc))) (nitems tmp) in
               let st2 := update_at (with_next st1 nx) ps (set_items its') in
@@ -899,6 +916,36 @@ Definition exec_dict (sc : scope) (st : state) (ps : pos) (tid : N) (tk : kind) 
   | _ => deleg
   end.
 
+(* an untyped list: the operations that write several values go through [tprim] element by element (for a list that
+   does not check its members this is SymCoreOps.lprim, i.e. exactly SymCoreOps.exec) *)
+Definition exec_ulist (sc : scope) (st : state) (ps : pos) (tfl : flags) (its : list (key * node)) (o : op rtv)
+           (deleg : state * outcome) : state * outcome :=
+  let sl := treats_as_sealed sc tfl in
+  match o with
+  | LExtend xs | LIAdd xs => if sl then (st, Err EWrite) else textend_core sc st ps xs
+  | LIMul m =>
+      if sl then (st, Err EWrite) else
+      if m <=? 0 then deleg
+      else textend_core sc st ps (repeat_list (Z.to_nat (m - 1)) (map (fun kv => rtv_of_item (snd kv)) its))
+  | LAdd xs =>
+      if treats_as_sealed sc default_flags then (st, Err EWrite) else
+      let '(c, st1) := new_list_from q st its in
+      let ri := length (roots st1) in
+      match textend_core sc (add_root st1 c) (ri, []) xs with
+      | (st', Err e) => (st', Err e)
+      | (st', _) => (st', Ok (RPos (ri, [])))
+      end
+  | LMul m =>
+      if (m >=? 1) && treats_as_sealed sc default_flags then (st, Err EWrite) else
+      let '(c, st1) := new_list_from q st [] in
+      let ri := length (roots st1) in
+      match textend_loop sc (add_root st1 c) (ri, []) (repeat_list (Z.to_nat m) (map (fun kv => rtv_of_item (snd kv)) its)) false with
+      | (st', _, Some e) => (st', Err e)
+      | (st', _, None) => (st', Ok (RPos (ri, [])))
+      end
+  | _ => deleg
+  end.
+
 Definition op_rv (o : op rtv) : op rvalue :=
   match op_mapM (fun x => Some (to_rv x)) o with Some o' => o' | None => LCopy end.
 
@@ -921,6 +968,7 @@ Definition exec2 (sc : scope) (st : state) (ps : pos) (tid : N) (tk : kind) (tpt
   | _ =>
       match tk, spec_at ev (f_spec tfl) with
       | KList, Some (Typing.SList e mn mx m) => exec_list sc st ps tid tpth tfl its e mn mx (Typing.SList e mn mx m) o deleg
+      | KList, _ => exec_ulist sc st ps tfl its o deleg
       | KDict, Some (Typing.SDict (Some fs) m) => exec_dict sc st ps tid tk tpth tfl its fs (Typing.SDict (Some fs) m) o deleg
       | KObj _, Some (Typing.SDict (Some fs) m) => exec_dict sc st ps tid tk tpth tfl its fs (Typing.SDict (Some fs) m) o deleg
       | KDict, Some (Typing.SDict None _) => match o with DPopItem => (st, Err EValue) | _ => deleg end
@@ -1077,22 +1125,6 @@ Definition e_pv_leaf (l : leaf) : tr :=
          | Typing.PObj [9%N; 9%N; 9%N] 0%N => L [I 99]
          | v => Typing.e_pv v
          end
-  end.
-(* Dict.sym_keys: the declared keys in schema order, then the others in the order they were stored *)
-Definition ordered_items (ev : env) (n : node) : list (key * node) :=
-  match n with
-  | Node _ KList _ _ _ its => its
-  | Node _ _ _ _ fl its =>
-      match spec_at ev (f_spec fl) with
-      | Some (Typing.SDict (Some fs) _) =>
-          let consts := flat_map (fun kf => match fst kf with
-                                            | Typing.KConst k => match assoc (KS k) its with Some c => [(KS k, c)] | None => [] end
-                                            | Typing.KDyn => []
-                                            end) fs in
-          consts ++ filter (fun kc => negb (is_const_key fs (fst kc))) its
-      | _ => its
-      end
-  | Leaf _ => []
   end.
 Definition e_tflags (ev : env) (n : node) (f : flags) : tr :=
   L [ebool (f_sealed f); ebool (f_aw f); ebool (f_partial f); eN (ref_opt ev (node_spec ev n))].
